@@ -272,12 +272,10 @@ class LetExpression(TypedExpression):
             [layer for layer in list(value_state.stack) if layer.get("scope")]
         )
         if not self.local_variables:
+            # A binding-less `let in` adds no layer: keep the body's own scope
+            # and stack as they are instead of stacking its own layer again.
             return self.value.model_copy(
-                update={
-                    "before": body_before,
-                    "after": body_after,
-                    "scope_state": ScopeState(stack=scope_stack),
-                }
+                update={"before": body_before, "after": body_after}
             )
         return self.value.model_copy(
             update={
